@@ -23,6 +23,7 @@ def line_bytes(b):
 def run_step(M, prog, case):
     """execute one path; returns StepCtx (raises Panic etc. after recording what is needed in M.env['ctx'])"""
     M.env['select_start'] = 0
+    M.env.setdefault('verify', lambda M_, pw, hs: M_.values_equal(pw, hs))
     spec = Spec(**case.get('spec', {}))
     w = World(M, prog, spec, partial=case.get('partial'))
     setup = case.get('setup')
